@@ -2,10 +2,12 @@ package main
 
 import (
 	"bufio"
+	"context"
 	"encoding/json"
 	"flag"
 	"fmt"
 	"os"
+	"os/exec"
 	"path/filepath"
 	"regexp"
 	"sort"
@@ -19,10 +21,17 @@ import (
 
 var verifDir = envOr("VERIF_DIR", "/verif")
 
+type exhaustiveRun struct {
+	Pkg    string `json:"pkg"`    // package directory under /repo, e.g. pkg/mpegts
+	File   string `json:"file"`   // test file under /verif, injected by overlay
+	Domain string `json:"domain"` // what finite domain is enumerated
+}
+
 type propCfg struct {
-	Entries []string `json:"entries"` // function keys (suffix match) whose static call closure is swept for panic-freedom
-	Exclude []string `json:"exclude"` // package path prefixes / function key suffixes not followed
-	Note    string   `json:"note"`
+	Exhaustive []exhaustiveRun `json:"exhaustive"` // exhaustive evaluations of the real code over a finite domain (labelled as such, never counted as proved)
+	Entries    []string        `json:"entries"`    // function keys (suffix match) whose static call closure is swept for panic-freedom
+	Exclude    []string        `json:"exclude"`    // package path prefixes / function key suffixes not followed
+	Note       string          `json:"note"`
 }
 
 func loadPropCfg() map[string]*propCfg {
@@ -249,6 +258,7 @@ func cmdCheck(args []string) {
 	tier := fs.String("tier", envOr("VERIF_TIER", "quick"), "quick|thorough")
 	writeBaseline := fs.Bool("write-baseline", false, "record discharged/undecided obligations of the current tree as the baseline (only on the unchanged tree)")
 	verbose := fs.Bool("v", false, "list every non-discharged obligation")
+	triage := fs.Bool("triage", false, "replay every non-discharged panic obligation on the real code and print the confirmed ones (no baseline, no evidence claims)")
 	if len(args) < 1 {
 		fmt.Fprintln(os.Stderr, "usage: govc check <property> [--tier quick|thorough]")
 		os.Exit(2)
@@ -280,20 +290,53 @@ func cmdCheck(args []string) {
 	}
 	ms := 10000
 	if thorough {
-		ms = 60000
+		ms = 20000
 	}
 	tmp, _ := os.MkdirTemp("", "govc-"+prop+"-")
 	defer os.RemoveAll(tmp)
 	solver := newSolver(tmp, seed, ms, 16)
 	solver.lastResort = thorough
 	if thorough {
-		solver.maxCubes = 128
+		solver.maxCubes = 48
+		solver.oblBudget = 45 * time.Second
+	} else {
+		solver.oblBudget = 25 * time.Second
 	}
 
 	claimed := readList(filepath.Join(verifDir, "baseline", prop+".claimed"))
 	undecided := readList(filepath.Join(verifDir, "baseline", prop+".undecided"))
-	if *writeBaseline {
+	quickClaimed, quickUndecided := map[string]bool{}, map[string]bool{}
+	for k := range claimed {
+		quickClaimed[k] = true
+	}
+	for k := range undecided {
+		quickUndecided[k] = true
+	}
+	if thorough {
+		// the thorough tier has its own additional baseline (thorough-only clauses)
+		for k, v := range readList(filepath.Join(verifDir, "baseline", prop+".thorough.claimed")) {
+			claimed[k] = v
+		}
+		for k, v := range readList(filepath.Join(verifDir, "baseline", prop+".thorough.undecided")) {
+			undecided[k] = v
+			delete(claimed, k)
+		}
+	}
+	if *writeBaseline && !thorough {
 		claimed, undecided = map[string]string{}, map[string]string{}
+	}
+	if *writeBaseline && thorough {
+		// keep the quick baseline, (re)compute only the thorough additions
+		for k := range claimed {
+			if !quickClaimed[k] {
+				delete(claimed, k)
+			}
+		}
+		for k := range undecided {
+			if !quickUndecided[k] {
+				delete(undecided, k)
+			}
+		}
 	}
 	kfs := readKnownFindings()
 	known := map[string]knownFinding{}
@@ -331,7 +374,7 @@ func cmdCheck(args []string) {
 				if !oblInProp(o, prop, j.props) {
 					return false
 				}
-				if _, und := undecided[o.Name]; und && !thorough && !*writeBaseline && !o.Cover {
+				if _, und := undecided[o.Name]; und && !thorough && !*writeBaseline && !o.Cover && !*triage {
 					skippedUnd = append(skippedUnd, o)
 					return false
 				}
@@ -412,6 +455,60 @@ func cmdCheck(args []string) {
 	}
 	wg.Wait()
 
+	if *triage {
+		type tr struct {
+			name string
+			rr   *ReplayResult
+		}
+		var mu sync.Mutex
+		var out []tr
+		var wg3 sync.WaitGroup
+		sem := make(chan struct{}, 4)
+		for _, r := range results {
+			if r.res.Ex == nil {
+				continue
+			}
+			for _, v := range r.vs {
+				if v.Obl.Cover || v.Status == "unsat" || !panicKinds[v.Obl.Kind] {
+					continue
+				}
+				wg3.Add(1)
+				go func(r *fres, v *Verdict) {
+					defer wg3.Done()
+					sem <- struct{}{}
+					defer func() { <-sem }()
+					sub, _ := os.MkdirTemp(tmp, "tri")
+					rr := tryReplay(P, r.res.Ex, v.Obl, v, sub, seed)
+					mu.Lock()
+					out = append(out, tr{v.Obl.Name + " [" + v.Obl.SrcPos + "]", rr})
+					mu.Unlock()
+				}(r, v)
+			}
+		}
+		wg3.Wait()
+		sort.Slice(out, func(i, j int) bool { return out[i].name < out[j].name })
+		for _, t := range out {
+			if t.rr != nil && t.rr.Confirmed {
+				fmt.Printf("CONFIRMED %s\n", t.name)
+				var ks []string
+				for k := range t.rr.Inputs {
+					ks = append(ks, k)
+				}
+				sort.Strings(ks)
+				for _, k := range ks {
+					fmt.Printf("    %s = %s\n", k, truncate(t.rr.Inputs[k], 400))
+				}
+				for _, l := range strings.Split(t.rr.Output, "\n") {
+					if strings.Contains(l, "VERIF-REPLAY-PANIC") || strings.HasPrefix(l, "panic:") {
+						fmt.Printf("    -> %s\n", truncate(l, 200))
+					}
+				}
+			} else if t.rr != nil {
+				fmt.Printf("not-confirmed %s: %s\n", t.name, truncate(t.rr.Note, 160))
+			}
+		}
+		return
+	}
 	var records []oblRecord
 	nObl, nDis := 0, 0
 	var violations []string
@@ -601,13 +698,43 @@ func cmdCheck(args []string) {
 			nObl++
 		}
 	}
-	if *writeBaseline {
+	if *writeBaseline && thorough {
+		var tc, tu []string
+		for _, n := range baseClaimed {
+			if !quickClaimed[n] {
+				tc = append(tc, n)
+			}
+		}
+		for _, l := range baseUndecided {
+			if !quickUndecided[strings.SplitN(l, "\t", 2)[0]] {
+				tu = append(tu, l)
+			}
+		}
+		sort.Strings(tc)
+		sort.Strings(tu)
+		os.WriteFile(filepath.Join(verifDir, "baseline", prop+".thorough.claimed"), []byte(strings.Join(tc, "\n")+"\n"), 0o644)
+		os.WriteFile(filepath.Join(verifDir, "baseline", prop+".thorough.undecided"), []byte(strings.Join(tu, "\n")+"\n"), 0o644)
+		fmt.Fprintf(os.Stderr, "thorough baseline written: %d claimed, %d undecided (in addition to the quick baseline)\n", len(tc), len(tu))
+	} else if *writeBaseline {
 		os.MkdirAll(filepath.Join(verifDir, "baseline"), 0o755)
 		sort.Strings(baseClaimed)
 		sort.Strings(baseUndecided)
 		os.WriteFile(filepath.Join(verifDir, "baseline", prop+".claimed"), []byte(strings.Join(baseClaimed, "\n")+"\n"), 0o644)
 		os.WriteFile(filepath.Join(verifDir, "baseline", prop+".undecided"), []byte(strings.Join(baseUndecided, "\n")+"\n"), 0o644)
 		fmt.Fprintf(os.Stderr, "baseline written: %d claimed, %d undecided\n", len(baseClaimed), len(baseUndecided))
+	}
+	// exhaustive evaluations of the real code over finite domains (bounded stand-ins, labelled)
+	var exhaustive []map[string]interface{}
+	if c := cfg[prop]; c != nil {
+		for _, er := range c.Exhaustive {
+			res := runExhaustive(repo, er, tmp)
+			exhaustive = append(exhaustive, res)
+			if ok, _ := res["ok"].(bool); !ok {
+				path := writeReplay(prop, "exhaustive:"+er.File, map[string]interface{}{"property": prop, "obligation": "exhaustive:" + er.File, "kind": "exhaustive", "domain": er.Domain, "output": res["output"], "command": res["command"]})
+				violations = append(violations, fmt.Sprintf("VIOLATION property=%s replay=%s", prop, path))
+				fmt.Fprintf(os.Stderr, "  exhaustive evaluation failed: %s\n", er.File)
+			}
+		}
 	}
 	sort.Strings(termUnproved)
 	var tb []string
@@ -660,6 +787,7 @@ func cmdCheck(args []string) {
 			"new_undecided":            sorted(newUndecided),
 			"known_findings":           sorted(knownHit),
 			"bounded":                  bounded,
+			"exhaustive_runs":          exhaustive,
 			"termination_unproved":     termUnproved,
 			"vacuity":                  map[string]int{"cover_queries": coverRun, "satisfiable": coverSat},
 			"explanation":              "obligations/discharged count only the claimed set: obligations generated from /repo's current tree for this property, excluding those listed as undecided (never counted as proved) or as known findings",
@@ -708,4 +836,37 @@ func writeReplay(prop, name string, data map[string]interface{}) string {
 	b, _ := json.MarshalIndent(data, "", " ")
 	os.WriteFile(path, b, 0o644)
 	return path
+}
+
+// runExhaustive injects a test file from /verif into a package of /repo by
+// overlay and runs it; the test prints VERIF-EXHAUSTIVE-DONE cases=N failed=M.
+func runExhaustive(repo string, er exhaustiveRun, tmp string) map[string]interface{} {
+	res := map[string]interface{}{"file": er.File, "package": er.Pkg, "domain": er.Domain, "ok": false,
+		"label": "exhaustive run of the real code over a finite domain; not a deduction and not counted in obligations/discharged"}
+	src := filepath.Join(verifDir, er.File)
+	ov := map[string]map[string]string{"Replace": {filepath.Join(repo, er.Pkg, "zz_verif_exhaustive_test.go"): src}}
+	ovFile := filepath.Join(tmp, "exh-"+sanitize(er.File)+".json")
+	ob, _ := json.Marshal(ov)
+	os.WriteFile(ovFile, ob, 0o644)
+	cmdline := fmt.Sprintf("cd %s && go test -v -overlay %s -vet=off -count=1 -timeout 300s -run '^TestVerifExhaustive$' ./%s/", repo, ovFile, er.Pkg)
+	res["command"] = "go test -v -overlay <overlay> -vet=off -count=1 -timeout 300s -run '^TestVerifExhaustive$' ./" + er.Pkg + "/"
+	ctx, cancel := context.WithTimeout(context.Background(), 400*time.Second)
+	defer cancel()
+	cmd := exec.CommandContext(ctx, "bash", "-c", cmdline)
+	cmd.Env = append(os.Environ(), "GOFLAGS=-mod=mod", "GOPROXY=off", "GOSUMDB=off", "GOTOOLCHAIN=local")
+	out, _ := cmd.CombinedOutput()
+	var keep []string
+	cases, failed := -1, -1
+	for _, l := range strings.Split(string(out), "\n") {
+		if strings.Contains(l, "VERIF-EXHAUSTIVE") || strings.HasPrefix(l, "panic:") || strings.HasPrefix(l, "FAIL") || strings.Contains(l, "cannot") {
+			keep = append(keep, l)
+		}
+		if strings.Contains(l, "VERIF-EXHAUSTIVE-DONE") {
+			fmt.Sscanf(l[strings.Index(l, "cases="):], "cases=%d failed=%d", &cases, &failed)
+		}
+	}
+	res["cases"], res["failed"] = cases, failed
+	res["output"] = truncate(strings.Join(keep, "\n"), 4000)
+	res["ok"] = cases > 0 && failed == 0
+	return res
 }
